@@ -15,6 +15,11 @@ if _spec.startswith(("noise:", "noisegc:")) and hasattr(sys, "monitoring"):
 
         _kind, _seed, _p, _ms = _spec.split(":")
         _gc = _kind == "noisegc"
+        if _gc:
+            # collections happen when this schedule says so: inside the tracing helper (a legal moment for one)
+            import gc as _gcmod
+
+            _gcmod.disable()
         _rng = random.Random(int(_seed) ^ os.getpid())
         _p = float(_p)
         _ms = float(_ms) / 1000.0
@@ -28,7 +33,7 @@ if _spec.startswith(("noise:", "noisegc:")) and hasattr(sys, "monitoring"):
             x = _rng.random()
             if x < _p:
                 time.sleep(0 if x < _p * 0.7 else _rng.random() * _ms)
-            elif _gc and x > 1 - _p / 4:
+            elif _gc and code.co_name == "trace" and x > 0.7:
                 # ("noisegc": a cyclic collection may start at any line, as it may in any program that allocates)
                 import gc
 
